@@ -24,7 +24,7 @@ def gen_script(rng, nops):
         lines = ["args " + " ".join(fl)] if fl else ["args"]
     else:
         lines = ["cfg %d %d %d" % cfg]
-    nxt, pre, ready, normal = 0, [], [], []     # generator's own bookkeeping (not an oracle)
+    nxt, pre, ready, normal, pre889 = 0, [], [], [], []     # generator's own bookkeeping (not an oracle)
     for _ in range(nops):
         r = rng.random()
         if r < 0.08:
@@ -33,9 +33,14 @@ def gen_script(rng, nops):
                                      "close %d" % rng.randint(0, MAXID)]))
         elif r < 0.30 and nxt <= MAXID:
             rev = 1 if rng.random() < 0.2 else 0
-            lines.append("conn %d %d" % (nxt, rev))
-            pre.append(nxt)
+            mac = rng.random() < 0.15
+            lines.append("%s %d %d" % ("conn889" if mac else "conn", nxt, rev))
+            (pre889 if mac else pre).append(nxt)
             nxt += 1
+        elif r < 0.36 and pre889:
+            i = pre889.pop(rng.randrange(len(pre889)))
+            lines.append("hs %d" % i)      # implicit ClientInit (shared) happens here
+            normal.append(i)
         elif r < 0.50 and pre:
             i = pre.pop(rng.randrange(len(pre)))
             lines.append("hs %d" % i)
@@ -70,7 +75,7 @@ def oracle(script, impl):
     ops = [l for l in script.splitlines() if l]
     if len(ops) != len(impl):
         return "observation count %d != ops %d" % (len(impl), len(ops))
-    cfg, rev, prev = (0, 0, 0), {}, {}
+    cfg, rev, prev, mac = (0, 0, 0), {}, {}, set()
     last_init = None
     for op, ob in zip(ops, impl):
         t = op.split()
@@ -78,8 +83,12 @@ def oracle(script, impl):
             cfg = tuple(int(x) for x in t[1:4])
         elif t[0] == "args":
             cfg = tuple(int(c or (f in t[1:])) for c, f in zip(cfg, ("-alwaysshared", "-nevershared", "-dontdisconnect")))
-        elif t[0] == "conn" and ob == "ok":
+        elif t[0] in ("conn", "conn889") and ob == "ok":
             rev[int(t[1])] = int(t[2])
+            if t[0] == "conn889":
+                mac.add(int(t[1]))
+        elif t[0] == "hs" and ob == "ok" and int(t[1]) in mac:
+            last_init = (int(t[1]), 1)
         elif t[0] == "init":
             last_init = (int(t[1]), int(t[2])) if ob == "ok" else None
         elif t[0] == "state":
